@@ -312,6 +312,12 @@ def validRootC (M : Model) (E : Env) (name : Name) (j : Json) : Option Bool :=
       | some e => (M.requests.find? (·.method == e.method)).map (fun r => validResponseC M r j)
       | Option.none => (M.findAlias name).map (fun a => validTyC M vFuel a.ty j)
 
+/-- a type alias as a root type: the alias object the package exports covers the alias, and is inside the universe T1 was checked on -/
+def aliasCovered (M : Model) (E : Env) (bad H : List PyTy) (a : Alias) : Bool :=
+  match E.pkg.aliases.find? (·.1 == a.name) with
+  | some p => annOK M E bad linkFuel (.ref a.name) p.2 && lightOK E bad H lightFuel p.2
+  | Option.none => false
+
 /-- message classes that are NOT covered (each must be explained by an excluded annotation) -/
 def messageFailures (M : Model) (E : Env) (bad : List PyTy) : List (Name × Name) :=
   (M.requests.filter (fun r => !(requestCovered M E bad r))).map (fun r => (n!"request", r.method)) ++
